@@ -283,7 +283,7 @@ Proof.
 Qed.
 
 Lemma kraus_labels : forall K0 Ks J, kraus_to_choi (K0 :: Ks) = Ok J ->
-  s_dims J = ((o_dl K0, o_dr K0), (o_dl K0, o_dr K0)) /\ s_rep J = Choi.
+  s_dims J = ((o_dr K0, o_dl K0), (o_dr K0, o_dl K0)) /\ s_rep J = Choi.
 Proof.
   intros K0 Ks J H. unfold kraus_to_choi in H.
   destruct (negb _) in H; try discriminate. inversion H. split; reflexivity.
@@ -322,4 +322,73 @@ Proof.
   rewrite mbuild_get by nia.
   destruct (divmod_pair m b a Ha) as [E1 E2]. destruct (divmod_pair n j i Hi) as [E3 E4].
   rewrite E1, E2, E3, E4. apply gmul_comm.
+Qed.
+
+(* ------------------------- kraus_to_choi [A] and to_choi A are one object *)
+Lemma gadd_0_r : forall x, gadd x g0 = x.
+Proof. intros [a b]. unfold gadd, g0. simpl. f_equal; ring. Qed.
+
+Lemma to_choi_oper_length : forall A J,
+  o_dl A = [o_m A] -> o_dr A = [o_n A] -> 1 < o_m A -> 1 < o_n A ->
+  to_choi (QOper A) = Ok J -> length (s_data J) = (o_n A * o_m A) * (o_n A * o_m A).
+Proof.
+  intros A J Hdl Hdr Hm Hn H.
+  unfold to_choi, sprepost_dag in H. rewrite Hdl, Hdr in H.
+  set (m := o_m A) in *. set (n := o_n A) in *.
+  assert (Em : (m =? 1) = false) by (apply Nat.eqb_neq; lia).
+  assert (En : (n =? 1) = false) by (apply Nat.eqb_neq; lia).
+  unfold drop1 in H. cbn [filter] in H. rewrite Em, En in H.
+  cbn [negb is_nil orb rbind] in H.
+  destruct (tofrom_ok_inv g0 _ _ H) as (_ & _ & _ & EJ).
+  subst J. cbn [s_data]. rewrite np_transpose_length, mbuild_length. ring.
+Qed.
+
+Lemma kraus_single_eq_to_choi : forall A J Jk,
+  o_dl A = [o_m A] -> o_dr A = [o_n A] -> 1 < o_m A -> 1 < o_n A ->
+  to_choi (QOper A) = Ok J -> kraus_to_choi [A] = Ok Jk -> Jk = J.
+Proof.
+  intros A J Jk Hdl Hdr Hm Hn HJ HK.
+  pose proof (to_choi_oper_length A J Hdl Hdr Hm Hn HJ) as HLJ.
+  destruct (kraus_labels A [] Jk HK) as [Dk Rk].
+  assert (H0m : 0 < o_m A) by lia. assert (H0n : 0 < o_n A) by lia.
+  destruct (to_choi_oper_entries A J 0 0 0 0 Hdl Hdr Hm Hn HJ H0m H0m H0n H0n) as (_ & DJ & RJ).
+  assert (HLk : length (s_data Jk) = (o_m A * o_n A) * (o_m A * o_n A)).
+  { unfold kraus_to_choi in HK. destruct (negb _) in HK; try discriminate.
+    inversion HK. cbn [s_data]. apply mbuild_length. }
+  set (m := o_m A) in *. set (n := o_n A) in *.
+  assert (Edata : s_data Jk = s_data J).
+  { apply (list_ext_nth g0); [rewrite HLk, HLJ; ring|].
+    intros g Hg. rewrite HLk in Hg.
+    assert (Hmn : m * n <> 0) by nia. assert (Hm0 : m <> 0) by lia.
+    set (r := g / (m * n)). set (c := g mod (m * n)).
+    assert (Hr : r < n * m).
+    { unfold r. apply Nat.div_lt_upper_bound; [exact Hmn|]. nia. }
+    assert (Hc : c < n * m).
+    { unfold c. pose proof (Nat.mod_upper_bound g (m * n) Hmn). lia. }
+    assert (Eg : g = r * (m * n) + c).
+    { unfold r, c. pose proof (Nat.div_mod g (m * n) Hmn). lia. }
+    set (i := r / m). set (a := r mod m). set (j := c / m). set (b := c mod m).
+    assert (Er : r = i * m + a).
+    { unfold i, a. pose proof (Nat.div_mod r m Hm0). lia. }
+    assert (Ec : c = j * m + b).
+    { unfold j, b. pose proof (Nat.div_mod c m Hm0). lia. }
+    assert (Ha : a < m) by (unfold a; apply Nat.mod_upper_bound; exact Hm0).
+    assert (Hb : b < m) by (unfold b; apply Nat.mod_upper_bound; exact Hm0).
+    assert (Hi : i < n).
+    { unfold i. apply Nat.div_lt_upper_bound; [exact Hm0|]. lia. }
+    assert (Hj : j < n).
+    { unfold j. apply Nat.div_lt_upper_bound; [exact Hm0|]. lia. }
+    assert (Hall : forall K, In K [A] -> o_m K = m /\ o_n K = n).
+    { intros K [<-|[]]. split; reflexivity. }
+    assert (Hne : [A] <> []) by discriminate.
+    pose proof (kraus_entries [A] Jk m n a b i j Hne Hall HK Ha Hb Hi Hj) as E1.
+    destruct (to_choi_oper_entries A J a b i j Hdl Hdr Hm Hn HJ Ha Hb Hi Hj) as (E2 & _ & _).
+    fold m n in E2. unfold mget in E1, E2. cbn [map gsum fold_right] in E1.
+    rewrite gadd_0_r in E1.
+    replace g with ((i * m + a) * (m * n) + (j * m + b)) at 1 by (rewrite Eg, Er, Ec; reflexivity).
+    rewrite E1.
+    replace g with ((i * m + a) * (n * m) + (j * m + b)) by (rewrite Eg, Er, Ec; ring).
+    rewrite E2. reflexivity. }
+  destruct J as [dJ dmJ rJ]. destruct Jk as [dK dmK rK]. simpl in *.
+  subst. reflexivity.
 Qed.
